@@ -108,6 +108,11 @@ def step0 (d : St) (line : String) : St × String :=
     let m' := closeStream d.s.m st
     let s' := setS { d.s with m := m' } x { inFallback := st.inFallback }
     ({ d with s := s' }, "ok" ++ suffix s' x)
+  | ["fbe", x] =>
+    -- a fall-back data event with an empty payload arrives for x's stream
+    let st := getS d.s x
+    let s' := setS d.s x { st with pending := st.pending ++ [.fb { heap := [], cap := 0, wi := 0 }] }
+    ({ d with s := s' }, "ok" ++ suffix s' x)
   | ["len", x] => (d, "ok" ++ suffix d.s x)
   | ["take", c, k] =>
     let ci := Drv.nat! c
